@@ -90,7 +90,7 @@ func incrementBytes(in []byte) []byte {
 	for i := len(rv) - 1; i >= 0; i-- {
 		rv[i] = rv[i] + 1
 		if rv[i] != 0 {
-			return rv // didn't overflow, so stop
+			return rv[:i+1] // didn't overflow, so stop; bytes after it wrapped to zero
 		}
 	}
 	return nil // overflowed
